@@ -43,7 +43,7 @@ def main():
             os.makedirs(os.path.dirname(f'{scratch}/{r}'), exist_ok=True)
             shutil.copy(p, f'{scratch}/{r}')
         pkgs = sorted({'./' + os.path.dirname(r) + '/' for r in demo_rel})
-        democmd = ['go', 'test', '-vet=off', '-count=1', '-run', 'Verif', '-timeout', '120s'] + pkgs
+        democmd = ['go', 'test', '-vet=off', '-count=1', '-run', 'Verif|Demo', '-timeout', '120s'] + pkgs
         if not pkgs and os.path.isdir(f'{scratch}/demo'):
             democmd = ['go', 'run', './demo']
         r0 = run(democmd, cwd=scratch)
